@@ -8,6 +8,7 @@
 import NiftyVerif.Lemmas.Field
 import NiftyVerif.Lemmas.FieldCRat
 import NiftyVerif.Lemmas.FieldPerm
+import NiftyVerif.Lemmas.FieldOps
 import Mathlib.Data.Complex.Basic
 
 namespace NiftyVerif.C06
@@ -500,6 +501,230 @@ example :
     (match var (fun z => z * z) f (.scalar 0) with | .ok m => [m.val [0], m.val [1]] | .error _ => []) = [16/25, 16/25]
     ∧ fibreVolume f [0] [0] = 5/2 := by
   decide +kernel
+
+/-! ### point-wise arithmetic and comparisons: element-wise (Field) and key-wise (MultiField) semantics -/
+
+/-- what each of the twelve operators computes on one pair of entries: ring operations of the field, true division
+    as multiplication by the inverse, `**` as repeated multiplication, comparisons / equality as 0-1 indicators -/
+theorem evalBin_spec [Field K] [DecidableEq K] (E : ElemOps K) (a b : K) :
+    evalBin E .add a b = a + b ∧ evalBin E .sub a b = a - b ∧ evalBin E .mul a b = a * b ∧
+    evalBin E .truediv a b = a / b ∧ evalBin E .pow a b = a ^ E.expNat b ∧
+    evalBin E .floordiv a b = E.floordiv a b ∧
+    (evalBin E .lt a b = if E.lt a b then 1 else 0) ∧ (evalBin E .gt a b = if E.lt b a then 1 else 0) ∧
+    (evalBin E .le a b = if E.le a b then 1 else 0) ∧ (evalBin E .ge a b = if E.le b a then 1 else 0) ∧
+    (evalBin E .eq a b = if a = b then 1 else 0) ∧ (evalBin E .ne a b = if a = b then 0 else 1) := by
+  refine ⟨rfl, rfl, rfl, ?_, ?_, rfl, rfl, rfl, rfl, rfl, ?_, ?_⟩
+  · simp only [evalBin, div_eq_mul_inv]
+  · simp only [evalBin, FieldM.npow_eq_pow]
+  · simp only [evalBin, ofB, decide_eq_true_eq]
+  · by_cases h : a = b <;> simp [evalBin, ofB, h]
+
+/-- Field `<op>` Field (and the reflected `__r<op>__`): the operands must live on the very same DomainTuple, the
+    result lives there too and entry `i` of the result is the operator applied to the entries `i` of the operands —
+    nothing else of the arrays enters (array semantics, no broadcasting between different domains). -/
+theorem pointwise_binop_elementwise [Field K] [DecidableEq K] (E : ElemOps K) (o : BinOp) (rev : Bool)
+    (f g : Fld K) :
+    (g.dom ≠ f.dom → fieldBin E o rev f g = .error "ValueError") ∧
+    (∀ r, fieldBin E o rev f g = .ok r →
+      g.dom = f.dom ∧ r.dom = f.dom ∧ r.subs = f.subs ∧
+      ∀ i, r.val i = if rev then evalBin E o (g.val i) (f.val i) else evalBin E o (f.val i) (g.val i)) := by
+  constructor
+  · intro h; simp [fieldBin, h]
+  · intro r h
+    unfold fieldBin at h
+    by_cases hd : g.dom = f.dom
+    · simp only [hd, ne_eq, not_true_eq_false, if_false] at h
+      split at h
+      · cases h
+      · cases rev with
+        | true =>
+          simp only [if_true, binop, hd, ne_eq, not_true_eq_false, if_false, Except.ok.injEq] at h
+          subst h
+          exact ⟨hd, rfl, rfl, fun _ => rfl⟩
+        | false =>
+          simp only [Bool.false_eq_true, if_false, binop, hd, ne_eq, not_true_eq_false, Except.ok.injEq] at h
+          subst h
+          exact ⟨hd, rfl, rfl, fun _ => rfl⟩
+    · simp only [ne_eq, hd, not_false_eq_true, if_true] at h
+      cases h
+
+/-- Field `<op>` Python scalar / Python scalar `<op>` Field: every entry is combined with the scalar -/
+theorem pointwise_scalar_elementwise [Field K] [DecidableEq K] (E : ElemOps K) (o : BinOp) (rev : Bool)
+    (f r : Fld K) (c : K) (cdt : DT) (h : fieldBinScalar E o rev f c cdt = .ok r) :
+    r.dom = f.dom ∧ r.subs = f.subs ∧
+    ∀ i, r.val i = if rev then evalBin E o c (f.val i) else evalBin E o (f.val i) c := by
+  unfold fieldBinScalar at h
+  cases rev with
+  | true =>
+    simp only [if_true] at h
+    split at h
+    · cases h
+    · simp only [binopScalar, Except.ok.injEq] at h
+      subst h
+      exact ⟨rfl, rfl, fun _ => rfl⟩
+  | false =>
+    simp only [Bool.false_eq_true, if_false] at h
+    split at h
+    · cases h
+    · simp only [binopScalar, Except.ok.injEq] at h
+      subst h
+      exact ⟨rfl, rfl, fun _ => rfl⟩
+
+/-- unary operators act entry by entry: `-x`, `+x`, `conjugate` (identity on real dtypes), `real`, `imag`
+    (`imag` of a non-complex Field is rejected) -/
+theorem pointwise_unary [Field K] (E : ElemOps K) (o : UnOp) (f : Fld K) :
+    (o = .imag ∧ f.dt ≠ DT.complex → fieldUn E o f = .error "ValueError") ∧
+    (∀ r, fieldUn E o f = .ok r → r.dom = f.dom ∧ r.subs = f.subs ∧ ∀ i, r.val i =
+      match o with
+      | .neg => -f.val i
+      | .pos => f.val i
+      | .conjugate => if f.dt = DT.complex then E.conj (f.val i) else f.val i
+      | .real => if f.dt = DT.complex then E.re (f.val i) else f.val i
+      | .imag => E.im (f.val i)) := by
+  constructor
+  · rintro ⟨rfl, hc⟩; simp [fieldUn, hc]
+  · intro r h
+    cases o with
+    | neg => simp only [fieldUn, unop, Except.ok.injEq] at h; subst h; exact ⟨rfl, rfl, fun _ => rfl⟩
+    | pos => simp only [fieldUn, Except.ok.injEq] at h; subst h; exact ⟨rfl, rfl, fun _ => rfl⟩
+    | conjugate =>
+      by_cases hc : f.dt = DT.complex
+      · simp only [fieldUn, hc, if_true, unop, Except.ok.injEq] at h; subst h
+        exact ⟨rfl, rfl, fun _ => by simp [hc]⟩
+      · simp only [fieldUn, hc, if_false, Except.ok.injEq] at h; subst h
+        exact ⟨rfl, rfl, fun _ => by simp [hc]⟩
+    | real =>
+      by_cases hc : f.dt = DT.complex
+      · simp only [fieldUn, hc, if_true, unop, Except.ok.injEq] at h; subst h
+        exact ⟨rfl, rfl, fun _ => by simp [hc]⟩
+      · simp only [fieldUn, hc, if_false, Except.ok.injEq] at h; subst h
+        exact ⟨rfl, rfl, fun _ => by simp [hc]⟩
+    | imag =>
+      by_cases hc : f.dt = DT.complex
+      · simp only [fieldUn, hc, if_true, unop, Except.ok.injEq] at h; subst h
+        exact ⟨rfl, rfl, fun _ => rfl⟩
+      · simp only [fieldUn, hc, if_false] at h; cases h
+
+/-- `clip(a_min, a_max)` is `min(max(x, a_min), a_max)` entry by entry (a missing bound does nothing) on any linearly
+    ordered element type whose `<` the element operations implement -/
+theorem clip_spec [LinearOrder K] (E : ElemOps K) (hlt : ∀ a b, E.lt a b = decide (a < b))
+    (f : Fld K) (lo hi : K) (ldt hdt : DT) (i : Idx) :
+    (fieldClip E f (some lo) (some hi) ldt hdt).val i = min (max (f.val i) lo) hi ∧
+    (fieldClip E f (some lo) none ldt hdt).val i = max (f.val i) lo ∧
+    (fieldClip E f none (some hi) ldt hdt).val i = min (f.val i) hi ∧
+    (fieldClip E f none none ldt hdt).val i = f.val i := by
+  simp only [fieldClip, clipVal, hlt, decide_eq_true_eq]
+  refine ⟨?_, ?_, ?_, by first | trivial | rfl⟩
+  · by_cases h1 : f.val i < lo
+    · simp only [h1, if_true, max_eq_right (le_of_lt h1)]
+      by_cases h2 : hi < lo
+      · simp [h2, min_eq_right (le_of_lt h2)]
+      · simp [h2, min_eq_left (not_lt.mp h2)]
+    · simp only [h1, if_false, max_eq_left (not_lt.mp h1)]
+      by_cases h2 : hi < f.val i
+      · simp [h2, min_eq_right (le_of_lt h2)]
+      · simp [h2, min_eq_left (not_lt.mp h2)]
+  · by_cases h1 : f.val i < lo
+    · simp [h1, max_eq_right (le_of_lt h1)]
+    · simp [h1, max_eq_left (not_lt.mp h1)]
+  · by_cases h2 : hi < f.val i
+    · simp [h2, min_eq_right (le_of_lt h2)]
+    · simp [h2, min_eq_left (not_lt.mp h2)]
+
+/-- MultiField `<op>` MultiField is key-wise AND element-wise: same MultiDomain object required, and entry `i` of
+    leaf `k` of the result is the operator applied to entries `i` of the leaves `k` -/
+theorem multifield_pointwise [Field K] [DecidableEq K] (E : ElemOps K) (o : BinOp) (rev : Bool)
+    (a b r : MFld K) (h : mbinop (fieldBin E o rev) a b = .ok r) :
+    a.dom = b.dom ∧
+    List.Forall₂ (fun (ab : (String × Fld K) × (String × Fld K)) (c : String × Fld K) =>
+      c.1 = ab.1.1 ∧ ab.2.2.dom = ab.1.2.dom ∧ c.2.subs = ab.1.2.subs ∧
+      ∀ i, c.2.val i = if rev then evalBin E o (ab.2.2.val i) (ab.1.2.val i)
+                       else evalBin E o (ab.1.2.val i) (ab.2.2.val i))
+      (a.leaves.zip b.leaves) r.leaves := by
+  obtain ⟨hd, _, hf, _⟩ := multifield_op_keywise (fieldBin E o rev) a b r h
+  refine ⟨hd, ?_⟩
+  refine List.Forall₂.imp ?_ hf
+  intro ab c ⟨hk, hop⟩
+  obtain ⟨h1, _, h3, h4⟩ := (pointwise_binop_elementwise E o rev ab.1.2 ab.2.2).2 c.2 hop
+  exact ⟨hk, h1, h3, h4⟩
+
+-- non-vacuity: [3, 5] ** [2, 0] = [9, 1];  2 - [3, 5] (reflected) = [-1, -3];  [3,5] < [4,5] = [1, 0]; clip
+example :
+    let E : ElemOps Rat := ⟨fun a b => a < b, fun a b => a ≤ b, fun a b => ((a / b).floor : Int),
+      fun b => b.num.toNat, fun b => b < 0, fun b => b.den != 1 || b < 0, id, id, fun _ => 0⟩
+    let f : Fld Rat := ⟨0, [⟨[2], .none, none⟩], DT.float, fun i => if i.headD 0 = 0 then 3 else 5⟩
+    let e : Fld Rat := ⟨0, [⟨[2], .none, none⟩], DT.float, fun i => if i.headD 0 = 0 then 2 else 0⟩
+    let g : Fld Rat := ⟨0, [⟨[2], .none, none⟩], DT.float, fun i => if i.headD 0 = 0 then 4 else 5⟩
+    (match fieldBin E .pow false f e with | .ok r => [r.val [0], r.val [1]] | .error _ => []) = [9, 1] ∧
+    (match fieldBinScalar E .sub true f 2 DT.int with | .ok r => [r.val [0], r.val [1]] | .error _ => []) = [-1, -3] ∧
+    (match fieldBin E .lt false f g with | .ok r => [r.val [0], r.val [1]] | .error _ => []) = [1, 0] ∧
+    (fieldClip E f (some 4) (some (9/2)) 1 2).val [1] = 9/2 := by
+  decide +kernel
+
+/-! ### all / any / size -/
+
+/-- `s_all` / `s_any` / `all(spaces)` / `any(spaces)` are the quantifiers over the entries (of the index fibre);
+    MultiField `s_all` / `s_any` quantify over all entries of all leaves; MultiField `size` counts them. -/
+theorem all_any_size_spec [Field K] [DecidableEq K] (f : Fld K) (a : MFld K) (mask : List Bool) (o : Idx) :
+    (sAll f = true ↔ ∀ i ∈ allIdx f.sizes, f.val i ≠ 0) ∧
+    (sAny f = true ↔ ∃ i ∈ allIdx f.sizes, f.val i ≠ 0) ∧
+    (contractAll mask f.sizes f.val o = 1 ↔ ∀ c ∈ allIdx (sel true mask f.sizes), f.val (merge mask o c) ≠ 0) ∧
+    (contractAny mask f.sizes f.val o = 1 ↔ ∃ c ∈ allIdx (sel true mask f.sizes), f.val (merge mask o c) ≠ 0) ∧
+    (msAll a = true ↔ ∀ z ∈ mentries a, z ≠ 0) ∧
+    (msAny a = true ↔ ∃ z ∈ mentries a, z ≠ 0) ∧
+    msize a = (mentries a).length := by
+  refine ⟨?_, ?_, ?_, ?_, ?_, ?_, ?_⟩
+  · simp [sAll]
+  · simp [sAny]
+  · simp only [contractAll, ofB]
+    split
+    · rename_i h; simpa using h
+    · rename_i h
+      constructor
+      · intro h0; exact absurd h0.symm one_ne_zero
+      · intro hall; exact absurd (by simpa using hall) h
+  · simp only [contractAny, ofB]
+    split
+    · rename_i h; simpa using h
+    · rename_i h
+      constructor
+      · intro h0; exact absurd h0.symm one_ne_zero
+      · intro hex; exact absurd (by simpa using hex) h
+  · simp only [msAll, sAll, mentries, List.all_eq_true, List.mem_flatMap, List.mem_map, decide_eq_true_eq]
+    constructor
+    · rintro h z ⟨kv, hkv, i, hi, rfl⟩; exact h kv hkv i hi
+    · intro h kv hkv i hi; exact h _ ⟨kv, hkv, i, hi, rfl⟩
+  · simp only [msAny, sAny, mentries, List.any_eq_true, List.mem_flatMap, List.mem_map, decide_eq_true_eq]
+    constructor
+    · rintro ⟨kv, hkv, i, hi, hne⟩; exact ⟨_, ⟨kv, hkv, i, hi, rfl⟩, hne⟩
+    · rintro ⟨z, ⟨kv, hkv, i, hi, rfl⟩, hne⟩; exact ⟨kv, hkv, i, hi, hne⟩
+  · simp only [msize, mentries, List.length_flatMap, List.length_map, length_allIdx]
+
+example :
+    let f : Fld Rat := ⟨0, [⟨[2], .none, none⟩, ⟨[2], .none, none⟩], 2, fun i => (2 * i.headD 0 + i.tail.headD 0 : Nat)⟩
+    (sAll f, sAny f, msize ⟨0, [("a", f), ("b", f)]⟩,
+     (match fall f (.scalar 0) with | .ok r => [r.val [0], r.val [1]] | .error _ => [])) = (false, true, 8, [0, 1]) := by
+  decide +kernel
+
+/-! ### MultiField.vdot -/
+
+/-- MultiField.s_vdot / vdot is the sum of the leaf dot products (after the identity check of the MultiDomains and of
+    every pair of leaf domains), i.e. the dot product of the concatenated arrays -/
+theorem multifield_vdot [CommRing K] (conj : K → K) (a b : MFld K) :
+    (b.dom ≠ a.dom → msVdot conj a b = .error "ValueError") ∧
+    (∀ v, msVdot conj a b = .ok v → b.dom = a.dom ∧ (∀ p ∈ a.leaves.zip b.leaves, p.2.2.dom = p.1.2.dom) ∧
+      v = sumOver (a.leaves.zip b.leaves)
+            (fun p => sumOver (allIdx p.1.2.sizes) (fun i => conj (p.1.2.val i) * p.2.2.val i))) := by
+  constructor
+  · intro h; simp [msVdot, h]
+  · intro v h
+    unfold msVdot at h
+    by_cases hd : b.dom = a.dom
+    · simp only [hd, ne_eq, not_true_eq_false, if_false] at h
+      obtain ⟨h1, h2⟩ := sVdotLeaves_spec conj _ _ 0 v h
+      exact ⟨hd, h1, by rw [h2, zero_add]⟩
+    · simp only [ne_eq, hd, not_false_eq_true, if_true] at h
+      cases h
 
 /-! ### the theorems apply to what the driver executes
   `CRat` (exact complex rationals) with the core instances of Model/Field.lean is a field (Lemmas/FieldCRat.lean) and
